@@ -103,6 +103,8 @@ type progress struct {
 	curField *types.Var
 	scope    map[*ssa.Function]bool
 	notes    []string
+	ctxMemo  map[string]int
+	ctxDepth int
 }
 
 func newProgress(c *core.Ctx) *progress {
@@ -294,6 +296,11 @@ func (pr *progress) interpret(fn *ssa.Function, start *ssa.BasicBlock, init []*p
 						if pr.p.Pure(callee, 2) {
 							next = append(next, st)
 							continue
+						}
+						if class != pAdv {
+							if cc := pr.ctxClass(core.OriginOf(callee), x, st); cc > class {
+								class = cc
+							}
 						}
 					default:
 						next = append(next, st)
@@ -539,6 +546,12 @@ func (pr *progress) classOf(fn *ssa.Function) int {
 		return pAdvOrEOF // axiom, tied to rule C-offset: offset += currentLen, and currentLen >= 1 unless at EOF
 	}
 	init := &pstate{facts: map[string]bool{}, nilErrs: map[ssa.Value]bool{}, nonNil: map[ssa.Value]bool{}}
+	return pr.classOfInit(fn, init)
+}
+
+// classOfInit: the class of fn when entered in state init (facts about the
+// scanner position and about predicates passed as parameters).
+func (pr *progress) classOfInit(fn *ssa.Function, init *pstate) int {
 	// string / []string parameters are assumed non-empty (checked at the call sites by rule E-nonempty)
 	for _, prm := range fn.Params {
 		if b, ok := prm.Type().Underlying().(*types.Basic); ok && b.Kind() == types.String {
@@ -568,6 +581,9 @@ func (pr *progress) classOf(fn *ssa.Function) int {
 			if call, ok := v.(*ssa.Call); ok && call.Call.StaticCallee() != nil && call.Call.StaticCallee().Name() == "Annotate" {
 				return
 			}
+			if call, ok := v.(*ssa.Call); ok && alwaysNonNilError(call.Call.StaticCallee(), 0) {
+				return // a helper that builds an error value
+			}
 		}
 		any = true
 		c := pNone
@@ -585,6 +601,79 @@ func (pr *progress) classOf(fn *ssa.Function) int {
 		return pAdv // no success return: vacuous
 	}
 	return worst
+}
+
+// alwaysNonNilError: every return of fn yields a freshly built (non-nil) error
+// value, directly or through another such helper.
+func alwaysNonNilError(fn *ssa.Function, depth int) bool {
+	if fn == nil || fn.Blocks == nil || depth > 2 || fn.Signature.Results().Len() != 1 || !core.IsErrorType(fn.Signature.Results().At(0).Type()) {
+		return false
+	}
+	ok, any := true, false
+	core.EachInstr(fn, func(ins ssa.Instruction) {
+		ret, isRet := ins.(*ssa.Return)
+		if !isRet {
+			return
+		}
+		any = true
+		switch v := ret.Results[0].(type) {
+		case *ssa.MakeInterface:
+		case *ssa.Call:
+			if !alwaysNonNilError(v.Call.StaticCallee(), depth+1) {
+				ok = false
+			}
+		default:
+			ok = false
+		}
+	})
+	return ok && any
+}
+
+// ctxClass: the class of callee when it is entered in the caller's state st —
+// the facts the caller has established about the position (not at EOF) and
+// about a predicate it passes on (pred(current) holds) are carried into the
+// callee. Used when the context-free summary is too weak, e.g. a function that
+// tests pred(current) itself and then delegates to ReadWhile(pred).
+func (pr *progress) ctxClass(callee *ssa.Function, call *ssa.Call, st *pstate) int {
+	if callee == nil || callee.Blocks == nil || pr.ctxDepth > 2 {
+		return pNone
+	}
+	init := &pstate{notEOF: st.notEOF, atEOF: st.atEOF, facts: map[string]bool{}, nilErrs: map[ssa.Value]bool{}, nonNil: map[ssa.Value]bool{}}
+	for i, a := range call.Call.Args {
+		if i >= len(callee.Params) {
+			break
+		}
+		key := ""
+		switch f := a.(type) {
+		case *ssa.Parameter:
+			key = "pred:" + f.Name()
+		case *ssa.FreeVar:
+			key = "pred:" + f.Name()
+		case *ssa.Function:
+			key = "fn:" + f.String()
+		case *ssa.MakeClosure:
+			key = "closure:" + f.Fn.String()
+		}
+		if v, has := st.facts[key]; has && key != "" {
+			init.facts["pred:"+callee.Params[i].Name()] = v
+		}
+	}
+	if !init.notEOF && !init.atEOF && len(init.facts) == 0 {
+		return pNone
+	}
+	k := callee.String() + "|" + init.key()
+	if pr.ctxMemo == nil {
+		pr.ctxMemo = map[string]int{}
+	}
+	if c, ok := pr.ctxMemo[k]; ok {
+		return c
+	}
+	pr.ctxMemo[k] = pNone // recursion guard
+	pr.ctxDepth++
+	c := pr.classOfInit(callee, init)
+	pr.ctxDepth--
+	pr.ctxMemo[k] = c
+	return c
 }
 
 // loopsOf finds natural loops: header -> set of blocks.
